@@ -475,8 +475,26 @@ def _run_W(case):
         else:
             if not can:
                 V.probe("refused")
-                return
-            w.place_task(tasks[ti], st)
+                if (ti + wi) % 2:
+                    return
+                # F7 at the worker itself: the request is made although the fit test said no; the worker
+                # must refuse it (ValueError) and nothing may change, the fit test included
+                try:
+                    w.place_task(tasks[ti], st)
+                    forced = True
+                except ValueError:
+                    forced = False
+                V.probe("forced_refusal" if not forced else "forced_accepted")
+                if not forced:
+                    if snap(pool) != before:
+                        V.vio("refusal_changed_state", f"refused placement of {tasks[ti].name} on {w.name} "
+                              f"changed the worker", {"op": "place_direct"})
+                    if w.can_accomodate_strategy(st):
+                        V.vio("refusal_changed_state", f"after the refused placement of {tasks[ti].name} on "
+                              f"{w.name} the fit test for the same strategy says yes", {"op": "place_direct_fit"})
+                    return
+            else:
+                w.place_task(tasks[ti], st)
             pool._placed_tasks[tasks[ti]] = w.id
             ok = True
         if ok:
@@ -500,7 +518,9 @@ def _run_W(case):
                 if si not in batch:
                     batch[si] = BatchStrategy(strategies[si])
                     V.probe("new_batch_strategy")
-                do_place(op[1], batch[si], op[3] % len(pool.workers), True, id(batch[si]))
+                # a third of the batched placements go to the worker itself (incl. forced refusals)
+                do_place(op[1], batch[si], op[3] % len(pool.workers), (op[1] + op[2] + op[3]) % 3 != 0,
+                         id(batch[si]))
             elif op[0] == "remove":
                 ti = op[1]
                 before = snap(pool)
